@@ -514,16 +514,17 @@ func (k *KVStore) scanCommon(cursor uint64, expr string, count int, f func(e sto
 	}
 
 	if tableCursor == 0 {
-		_, ok := k.tablesByCoefficient[cf+1]
+		next := cf + 1
+		_, ok := k.tablesByCoefficient[next]
 		if !ok {
-			cf, err = k.findCoefficient(cf)
+			next, err = k.findCoefficient(cf)
 			if err != nil {
 				// Invalid cursor
 				return 0, nil
 			}
 		}
 		// The next table
-		return k.tableSize * (cf + 1), nil
+		return k.tableSize * next, nil
 	}
 
 	return tableCursor + (k.tableSize * cf), nil
